@@ -1015,7 +1015,21 @@ func (in *Inst) callAssertsOf(con *Contract, inherited bool, x *ssa.Call, st *St
 				}
 			}
 		}
-		t := in.specBool(ca.Clause.Expr, env)
+		// a clause that cannot be evaluated at this call (it names a local that is not in scope here, typically
+		// after the calls of the function were rearranged) fails as this one obligation, not as the whole function
+		t := func() (t string) {
+			defer func() {
+				if r := recover(); r != nil {
+					if u, ok := r.(unsupported); ok && strings.Contains(u.msg, "unknown name") {
+						in.e.note("clause `" + exprString(ca.Clause.Expr) + "` cannot be evaluated at a call of " + name + ": " + u.msg)
+						t = "false"
+						return
+					}
+					panic(r)
+				}
+			}()
+			return in.specBool(ca.Clause.Expr, env)
+		}()
 		when := "before"
 		if after {
 			when = "after"
